@@ -12,6 +12,9 @@ import JubakoModel.Lemmas.Codec
 import JubakoModel.Lemmas.DirCodec
 import JubakoModel.Lemmas.Container
 import JubakoModel.Lemmas.Layouts
+import JubakoModel.Lemmas.ContentFile
+import JubakoModel.Lemmas.DirFileG
+import JubakoModel.Lemmas.VerifiesB
 
 namespace Jubako
 
@@ -106,40 +109,40 @@ theorem c14_source_writer_reader_agree :
     fields in the order the Rust `serialize` writes them -/
 theorem c14_encoders_follow_source (ph : PackHeader) (pi : PackInfo) (pl : PackLocator)
     (ch : ContainerHeader) (coh : ContentHeader) (dh : DirectoryHeader) (mh : ManifestHeader) :
-    ph.encode = layoutBytes Generated.packHeaderSer (packHeaderField ph) ∧
-    pi.encode = layoutBytes Generated.packInfoSer (packInfoField pi) ∧
-    pl.encode = layoutBytes Generated.packLocatorSer (packLocatorField pl) ∧
-    ch.encode = layoutBytes Generated.containerHeaderSer (containerHeaderField ch) ∧
-    coh.encode = layoutBytes Generated.contentHeaderSer (contentHeaderField coh) ∧
-    dh.encode = layoutBytes Generated.directoryHeaderSer (directoryHeaderField dh) ∧
-    mh.encode = layoutBytes Generated.manifestHeaderSer (manifestHeaderField mh) :=
+    ph.encode = srcLayoutBytes Generated.packHeaderSer (packHeaderField ph) ∧
+    pi.encode = srcLayoutBytes Generated.packInfoSer (packInfoField pi) ∧
+    pl.encode = srcLayoutBytes Generated.packLocatorSer (packLocatorField pl) ∧
+    ch.encode = srcLayoutBytes Generated.containerHeaderSer (containerHeaderField ch) ∧
+    coh.encode = srcLayoutBytes Generated.contentHeaderSer (contentHeaderField coh) ∧
+    dh.encode = srcLayoutBytes Generated.directoryHeaderSer (directoryHeaderField dh) ∧
+    mh.encode = srcLayoutBytes Generated.manifestHeaderSer (manifestHeaderField mh) :=
   ⟨packHeader_layout ph, packInfo_layout pi, packLocator_layout pl, containerHeader_layout ch,
    contentHeader_layout coh, directoryHeader_layout dh, manifestHeader_layout mh⟩
 
 /-- … so every field of a written pack header sits at the offset, and has the width, that the
     source's `serialize` implies (offsets 0, 4, 8, 9, 10, 26, 27, 32, 40, 48; 60 bytes) -/
 theorem c14_pack_header_fields (h : PackHeader) (hw : h.WF) :
-    h.encode.length = layoutSize Generated.packHeaderSer ∧
-    ∀ n off w, (n, off, w) ∈ fieldOffsets Generated.packHeaderSer 0 →
+    h.encode.length = srcLayoutSize Generated.packHeaderSer ∧
+    ∀ n off w, (n, off, w) ∈ srcFieldOffsets Generated.packHeaderSer 0 →
       slice h.encode off w = packHeaderField h n := by
   rw [packHeader_layout h]
-  exact ⟨layoutBytes_length _ _ (packHeader_widths h hw), layoutBytes_slice _ _ (packHeader_widths h hw)⟩
+  exact ⟨srcLayoutBytes_length _ _ (packHeader_widths h hw), srcLayoutBytes_slice _ _ (packHeader_widths h hw)⟩
 
 /-- the offsets at which the model's decoders read are those implied by the source's `parse`
     (the decoders of Model/Pack.lean, Open.lean, Container.lean use these literals) -/
 theorem c14_reader_offsets :
-    (fieldOffsets Generated.packHeaderPar 0).map (fun p => (p.2.1, p.2.2)) =
+    (srcFieldOffsets Generated.packHeaderPar 0).map (fun p => (p.2.1, p.2.2)) =
       [(0, 4), (4, 4), (8, 1), (9, 1), (10, 16), (26, 1), (27, 5), (32, 8), (40, 8), (48, 12)] ∧
-    (fieldOffsets Generated.packInfoPar 0).map (fun p => (p.2.1, p.2.2)) =
+    (srcFieldOffsets Generated.packInfoPar 0).map (fun p => (p.2.1, p.2.2)) =
       [(0, 16), (16, 8), (24, 8), (32, 2), (34, 1), (35, 1), (36, 2), (38, 214)] ∧
-    (fieldOffsets Generated.packLocatorPar 0).map (fun p => (p.2.1, p.2.2)) = [(0, 16), (16, 8), (24, 8)] ∧
-    (fieldOffsets Generated.containerHeaderPar 0).map (fun p => (p.2.1, p.2.2)) =
+    (srcFieldOffsets Generated.packLocatorPar 0).map (fun p => (p.2.1, p.2.2)) = [(0, 16), (16, 8), (24, 8)] ∧
+    (srcFieldOffsets Generated.containerHeaderPar 0).map (fun p => (p.2.1, p.2.2)) =
       [(0, 8), (8, 2), (10, 26), (36, 24)] ∧
-    (fieldOffsets Generated.contentHeaderPar 0).map (fun p => (p.2.1, p.2.2)) =
+    (srcFieldOffsets Generated.contentHeaderPar 0).map (fun p => (p.2.1, p.2.2)) =
       [(0, 8), (8, 8), (16, 4), (20, 4), (24, 12), (36, 24)] ∧
-    (fieldOffsets Generated.directoryHeaderPar 0).map (fun p => (p.2.1, p.2.2)) =
+    (srcFieldOffsets Generated.directoryHeaderPar 0).map (fun p => (p.2.1, p.2.2)) =
       [(0, 8), (8, 8), (16, 8), (24, 4), (28, 4), (32, 1), (33, 3), (36, 24)] ∧
-    (fieldOffsets Generated.manifestHeaderPar 0).map (fun p => (p.2.1, p.2.2)) =
+    (srcFieldOffsets Generated.manifestHeaderPar 0).map (fun p => (p.2.1, p.2.2)) =
       [(0, 2), (2, 8), (10, 26), (36, 24)] := by
   refine ⟨?_, ?_, ?_, ?_, ?_, ?_, ?_⟩ <;> decide
 
@@ -173,5 +176,58 @@ theorem c14_container_pack_roundtrip (uuid freeData : Bytes) (packs : List (Byte
     containerPackOpen (containerPackWrite uuid freeData packs) 0 (containerPackWrite uuid freeData packs).length =
       .ok ((concatLayout packs).2.map (fun l => ⟨l.uuid, l.pos, l.size⟩)) :=
   containerPackOpen_write uuid freeData packs hu hf hpu hn hl
+
+/-! ### File level: the byte layout of each pack kind as the writer models produce it
+
+`contentPackWrite`, `dirPackWrite`, `manifestWrite`, `containerPackWrite` are the writer models the
+correspondence check compares byte for byte with the files the Rust creators produce
+(`cp.encode`, `dp.encode`, `ct.open` on created containers).  For every input they produce exactly:
+pack header block ‖ kind header block ‖ body parts ‖ check block ‖ header block reversed. -/
+
+/-- content pack = header ‖ content header ‖ clusters (payload ‖ tail block, in arrival order) ‖
+    cluster pointer table ‖ content info table ‖ blake3 check block ‖ mirrored header -/
+theorem c14_content_pack_file_layout (H : Bytes → Bytes) (codec : Codec) (m : ContentPackMeta)
+    (arrival : List Cluster) (infos : List (Nat × Nat)) :
+    contentPackWrite H codec m arrival infos =
+      block (cfHeader codec m arrival infos).encode ++
+        (block (cfCH codec m arrival infos).encode ++ (cfBytes codec arrival ++
+          (block (cfPtrData codec arrival) ++ (block (cfInfoData infos) ++
+            cfTrailer H codec m arrival infos)))) ∧
+    (cfCH codec m arrival infos).clusterPtrPos = 128 + (cfBytes codec arrival).length ∧
+    (cfCH codec m arrival infos).contentPtrPos =
+      128 + (cfBytes codec arrival).length + (block (cfPtrData codec arrival)).length ∧
+    (cfHeader codec m arrival infos).checkInfoPos =
+      (cfCH codec m arrival infos).contentPtrPos + (block (cfInfoData infos)).length ∧
+    (cfHeader codec m arrival infos).packSize = (cfHeader codec m arrival infos).checkInfoPos + 37 + 64 :=
+  ⟨contentPackWrite_eq H codec m arrival infos, rfl, rfl, rfl, rfl⟩
+
+/-- directory pack = header ‖ directory header ‖ index tails ‖ entry data block ‖ entry store tail ‖
+    value stores ‖ three pointer tables ‖ check block ‖ mirrored header -/
+theorem c14_directory_pack_file_layout (H : Bytes → Bytes) (vendor uuid freeData : Bytes) (d : DirIn) :
+    dirPackWrite H vendor uuid freeData d =
+      block (d.header vendor uuid).encode ++ (block (d.dh freeData).encode ++
+        (d.idxBytes ++ (block d.entryBytes ++ (block d.esTail ++ (d.vsBytes ++
+          (block d.t1 ++ (block d.t2 ++ (block d.t3 ++ d.trailer H vendor uuid freeData)))))))) :=
+  dirPackWrite_eq H vendor uuid freeData d
+
+/-- manifest pack = header ‖ manifest header ‖ copies of the packs' check blocks and the free-data
+    store ‖ one 256-byte block per pack info ‖ check block (over the masked prefix) ‖ mirrored header -/
+theorem c14_manifest_pack_file_layout (H : Bytes → Bytes) (vendor uuid freeData checkBlocks : Bytes)
+    (store : VStore) (infos : List PackInfo) :
+    manifestWrite H vendor uuid freeData checkBlocks store infos =
+      block (mwHeader vendor uuid checkBlocks store infos).encode ++
+        block (mwMH freeData checkBlocks store infos).encode ++ mwMid checkBlocks store ++
+        (infos.flatMap fun p => block p.encode) ++
+        mwTrailer H vendor uuid freeData checkBlocks store infos :=
+  manifestWrite_eq H vendor uuid freeData checkBlocks store infos
+
+/-- container pack = header ‖ container header ‖ the packs back to back ‖ locator table ‖
+    `block [0]` ‖ mirrored header -/
+theorem c14_container_pack_file_layout (uuid freeData : Bytes) (packs : List (Bytes × Bytes)) :
+    containerPackWrite uuid freeData packs =
+      block (cpwHeader uuid packs).encode ++ (block (cpwCH freeData packs).encode ++ (cpwBody packs ++
+        (locTable (layoutLocs 0 packs) ++ (block CheckInfo.none.encode ++
+          (block (cpwHeader uuid packs).encode).reverse)))) :=
+  containerPackWrite_eq uuid freeData packs
 
 end Jubako
